@@ -59,10 +59,17 @@ class ExplicitTranslator:
 
     `momenta` maps the name of an ArraySymbol to its four component names."""
 
-    def __init__(self, momenta: dict[str, tuple[str, str, str, str]] | None = None):
+    def __init__(self, momenta: dict[str, tuple[str, str, str, str]] | None = None,
+                 vec_prefix: str | None = None, params: list[str] | None = None):
         self.momenta = momenta or {"p": MOMENTUM_COMPONENTS}
         self.guards: list[str] = []
         self.tr = core.Translator(extra=self._extra)
+        # with `vec_prefix`, every matrix-times-vector result (ArrayMultiplication) becomes four named
+        # definitions `<prefix>_v<k>_<i>` (k = order of first appearance); see `Family(vecs=...)`
+        self.vec_prefix = vec_prefix
+        self.params = list(params or [])
+        self.vec_defs: list[tuple[str, tuple]] = []
+        self._vec_seen: dict = {}
 
     # scalar -----------------------------------------------------------------
     def scalar(self, e) -> tuple:
@@ -130,11 +137,16 @@ class ExplicitTranslator:
             vs = [self.vector(t) for t in e.terms]
             return [add(c) for c in zip(*vs)]
         if isinstance(e, ArrayMultiplication):
+            if self.vec_prefix is not None and e in self._vec_seen:
+                return list(self._vec_seen[e])
             *ms, v = e.args
             out = self.vector(v)
             for m in reversed(ms):
                 mm = self.matrix(m)
                 out = [add([mul([mm[i][j], out[j]]) for j in range(len(out))]) for i in range(len(mm))]
+            if self.vec_prefix is not None:
+                out = name_vector(self.vec_prefix, self.params, self.vec_defs, out)
+                self._vec_seen[e] = list(out)
             return out
         if isinstance(e, ArraySlice):
             idx = self._slice_second_index(e)
@@ -208,9 +220,16 @@ class NumpyCode:
     `arg_kinds`: parameter name -> ("vec", [component names]) | ("scalar", leanName).
     `result` is a Sc, Vec or Mat. `einsum_subscripts` lists the subscripts strings met."""
 
-    def __init__(self, source: str, arg_kinds: dict):
+    def __init__(self, source: str, arg_kinds: dict, vec_prefix: str | None = None,
+                 params: list[str] | None = None):
         self.source = source
         self.arg_kinds = arg_kinds
+        # with `vec_prefix`, every VECTOR returned by an einsum call becomes four named definitions
+        # `<prefix>_v<k>_<i>` (k = order of first evaluation; equal results share a name)
+        self.vec_prefix = vec_prefix
+        self.params = list(params or [])
+        self.vec_defs: list[tuple[str, tuple]] = []
+        self._vec_seen: dict = {}
         self.einsum_subscripts: list[str] = []
         self.n_temporaries = 0
         tree = pyast.parse(source)
@@ -434,8 +453,25 @@ class NumpyCode:
                 raise Untranslatable("einsum with unexpected arguments")
             ops = [self.ev(a, env) for a in n.args[1:]]
             self.einsum_subscripts.append(n.args[0].value)
-            return einsum_symbolic(n.args[0].value, ops)
+            res = einsum_symbolic(n.args[0].value, ops)
+            if self.vec_prefix is not None and isinstance(res, Vec):
+                k = key_of(res.ts)
+                if k not in self._vec_seen:
+                    self._vec_seen[k] = name_vector(self.vec_prefix, self.params, self.vec_defs, res.ts)
+                res = Vec(self._vec_seen[k])
+            return res
         raise Untranslatable(f"function {f} in generated code")
+
+
+def name_vector(prefix: str, params: list[str], vec_defs: list, components: list) -> list:
+    """register `components` as `<prefix>_v<k>_<i>` in `vec_defs`; returns the calls of these definitions"""
+    k = len({n.rsplit("_", 1)[0] for n, _ in vec_defs})
+    out = []
+    for i, t in enumerate(components):
+        name = f"{prefix}_v{k}_{i}"
+        vec_defs.append((name, t))
+        out.append(("app", name, [("sym", p) for p in params]))
+    return out
 
 
 def einsum_symbolic(subscripts: str, ops: list):  # noqa: C901, PLR0912
@@ -552,6 +588,127 @@ def lift_radicands(entries: list, family: str, params: list[str]):
     return [resolve(t) for t in lifted], [(names[kk], resolve(table[kk])) for kk in order]
 
 
+def share_subterms(roots: list, prefix: str, params: list[str], min_size: int = 8):
+    """Name every REPEATED compound subterm of `roots` as an auxiliary definition (no rewriting).
+
+    Nested array wrappers (`NegativeMomentum(NegativeMomentum(p))`, a momentum boosted by another
+    `BoostMatrix`) make the per-event reading of the generated code — whose cse temporaries are inlined —
+    grow geometrically, because every use of a component repeats the whole inner expression. This pass
+    puts the sharing back WITHOUT changing a single operation: the terms are hash-consed into a DAG, and
+    a node that is referenced at least twice and has at least `min_size` nodes (counted with its already
+    shared descendants as leaves) becomes `<prefix>_s<i> params := <that very subterm>`; every occurrence
+    is replaced by a call of that definition. Unfolding the auxiliary definitions gives back the original
+    terms literally, which is what the Lean proofs do (`c08_unfold`).
+
+    Returns (new_roots, [(name, body)]) with the auxiliary definitions in dependency order."""
+    table: dict = {}
+    nodes: list = []  # nid -> (kind, payload, [child nids])
+    memo: dict[int, int] = {}
+    keep: list = []  # keeps visited objects alive so that id() stays unique
+
+    def intern(t) -> int:
+        got = memo.get(id(t))
+        if got is not None:
+            return got
+        k = t[0]
+        if k in ("add", "mul"):
+            ch, payload = [intern(a) for a in t[1]], None
+        elif k == "pow":
+            ch, payload = [intern(t[1])], (t[2], t[3])
+        elif k in ("call", "app"):
+            ch, payload = [intern(a) for a in t[2]], t[1]
+        elif k in ("num", "sym", "I", "pi", "nan"):
+            ch, payload = [], tuple(t[1:])
+        else:
+            raise Untranslatable(f"ast node {k}")
+        key = (k, payload, tuple(ch))
+        nid = table.get(key)
+        if nid is None:
+            nid = len(nodes)
+            table[key] = nid
+            nodes.append((k, payload, ch))
+        memo[id(t)] = nid
+        keep.append(t)
+        return nid
+
+    root_ids = [intern(t) for t in roots]
+    refs = [0] * len(nodes)
+    for _, _, ch in nodes:
+        for c in ch:
+            refs[c] += 1
+    for r in root_ids:
+        refs[r] += 1
+    size = [0] * len(nodes)
+    lifted: dict[int, str] = {}
+    for nid, (k, _, ch) in enumerate(nodes):  # children are interned before their parents
+        size[nid] = 1 + sum(1 if c in lifted else size[c] for c in ch)
+        if ch and k != "app" and refs[nid] >= 2 and size[nid] >= min_size:  # noqa: PLR2004
+            lifted[nid] = f"{prefix}_s{len(lifted)}"
+    built: dict[int, tuple] = {}
+    call_args = [("sym", p) for p in params]
+
+    def body(nid):
+        k, payload, ch = nodes[nid]
+        cs = [ref(c) for c in ch]
+        if k in ("add", "mul"):
+            return (k, cs)
+        if k == "pow":
+            return ("pow", cs[0], payload[0], payload[1])
+        if k in ("call", "app"):
+            return (k, payload, cs)
+        return (k, *payload)
+
+    def ref(nid):
+        if nid in lifted:
+            return ("app", lifted[nid], call_args)
+        if nid not in built:
+            built[nid] = body(nid)
+        return built[nid]
+
+    aux = [(lifted[nid], body(nid)) for nid in sorted(lifted)]
+    return [ref(r) for r in root_ids], aux
+
+
+def _app_names(t, acc: set) -> set:
+    k = t[0]
+    if k == "app":
+        acc.add(t[1])
+        for a in t[2]:
+            _app_names(a, acc)
+    elif k in ("add", "mul"):
+        for a in t[1]:
+            _app_names(a, acc)
+    elif k == "pow":
+        _app_names(t[1], acc)
+    elif k == "call":
+        for a in t[2]:
+            _app_names(a, acc)
+    return acc
+
+
+def toposort_definitions(defs: list[tuple[str, tuple]]) -> list[tuple[str, tuple]]:
+    """order (name, body) pairs so that every definition comes after the ones it calls"""
+    by_name = dict(defs)
+    deps = {n: _app_names(b, set()) & set(by_name) for n, b in defs}
+    out, done, active = [], set(), set()
+
+    def visit(n):
+        if n in done:
+            return
+        if n in active:
+            raise Untranslatable(f"cyclic auxiliary definitions at {n}")
+        active.add(n)
+        for d in sorted(deps[n]):
+            visit(d)
+        active.discard(n)
+        done.add(n)
+        out.append((n, by_name[n]))
+
+    for n, _ in defs:
+        visit(n)
+    return out
+
+
 def free_syms(t, acc=None) -> set:
     acc = set() if acc is None else acc
     k = t[0]
@@ -574,16 +731,29 @@ def free_syms(t, acc=None) -> set:
 class Family:
     """A matrix (4x4), vector (4) or scalar valued target: its entries as scalar definitions."""
 
-    def __init__(self, name: str, params: list[str], shape: tuple, entries: list, doc: str = ""):
+    def __init__(self, name: str, params: list[str], shape: tuple, entries: list, doc: str = "",
+                 share: bool = False, vecs: list[tuple[str, tuple]] | None = None):
         self.name = name
         self.params = params
         self.shape = shape  # (4, 4) | (4,) | ()
         self.doc = doc
-        for t in entries:
+        vecs = list(vecs or [])  # named intermediate vectors (`name_vector`) the entries refer to
+        for t in [*entries, *[b for _, b in vecs]]:
             extra = free_syms(t) - set(params)
             if extra:
                 raise Untranslatable(f"{name}: free symbols {sorted(extra)} are not parameters")
-        self.entries, self.rads = lift_radicands(entries, name, params)
+        nv = len(vecs)
+        lifted, self.rads = lift_radicands([b for _, b in vecs] + list(entries), name, params)
+        self.vecs = [(n, b) for (n, _), b in zip(vecs, lifted[:nv])]
+        self.entries = lifted[nv:]
+        self.aux: list[tuple[str, tuple]] = []  # shared subterms (`share_subterms`), in dependency order
+        if share:
+            roots, self.aux = share_subterms([b for _, b in self.rads] + [b for _, b in self.vecs] + self.entries,
+                                             name, params)
+            k = len(self.rads)
+            self.rads = [(n, b) for (n, _), b in zip(self.rads, roots[:k])]
+            self.vecs = [(n, b) for (n, _), b in zip(self.vecs, roots[k:k + nv])]
+            self.entries = roots[k + nv:]
 
     def entry_names(self) -> list[str]:
         if self.shape == ():
@@ -593,7 +763,8 @@ class Family:
         return [f"{self.name}_{i}{j}" for i in range(self.shape[0]) for j in range(self.shape[1])]
 
     def definitions(self) -> list[core.Definition]:
-        defs = [core.Definition(n, self.params, t) for n, t in self.rads]
+        defs = [core.Definition(n, self.params, t)
+                for n, t in toposort_definitions([*self.aux, *self.rads, *self.vecs])]
         defs += [core.Definition(n, self.params, t) for n, t in zip(self.entry_names(), self.entries)]
         return defs
 
@@ -606,8 +777,9 @@ def render_gen(module: str, families: list[Family], header: str) -> str:
         ps = " ".join(fam.params)
         sig = f"({ps} : ℝ) " if fam.params else ""
         rad_names = {n for n, _ in fam.rads}
+        vec_names = {n for n, _ in fam.vecs}
         for d in fam.definitions():
-            tag = "" if d.name in rad_names else "@[c08_entries] "
+            tag = "" if d.name in rad_names else ("@[c08_vectors] " if d.name in vec_names else "@[c08_entries] ")
             body.append(f"{tag}noncomputable def {d.name} {sig}: ℝ :=\n  {rp.p(d.body)}")
         call = lambda n: " ".join([n, *fam.params])  # noqa: E731
         names = fam.entry_names()
